@@ -291,6 +291,8 @@ class PartialMatchResult:
             # Merge the two successful matches. Matching algorithm responsible for ensuring
             # that the two matches are compatible. No need to check for conflicts here.
             self._bindings.update(other._bindings)
+            self._value_bindings.update(other._value_bindings)
+            self._node_bindings.update(other._node_bindings)
             self._matched_nodes.extend(other.nodes)
             # Note: outputs should be set only at end of the (top-level) match. There
             # should be no outputs in the sub-match.
